@@ -137,6 +137,9 @@ def run(chk):
     chk.rule("DBU", "def-before-use: in every public Execute, no scratch member is read before the operation has written it "
              "(forward must-analysis over the structured CFG with interprocedural summaries and configuration splitting)")
     chk.rule("CLEAN", "scratch containers: empty at entry => certainly empty at every normal exit, for every public method (induction over call histories)")
+    chk.rule("SORTED.invalidate", "every public method that may modify minima_list_ writes minima_list_sorted_ on every path; the flag is set to true only "
+             "after a sort of the list (paths added after an Execute must be sorted in before the next one)")
+    chk.rule("CONFIG.preserved", "no Execute overload writes a configuration member (loaded paths, options, has_open_paths_, ...) apart from the documented caches")
     chk.rule("CLEAR", "Clear() must-defines every member the Add* family may modify")
     chk.rule("LOOP", "no member or outer local is written in one iteration of a per-path / per-group loop and read in the next before re-initialisation")
     chk.rule("DET.relational-comparisons", "no relational comparison of pointers, no unordered containers")
@@ -155,6 +158,12 @@ def run(chk):
             if len(pubs) < 9:
                 raise AnalysisBroken("only %d public methods found for %s" % (len(pubs), cls))
             e2.rule_clean(eng, chk, cfg, pubs, BASE, [{}])
+            allowed = {"minima_list_sorted_": "cache of 'minima_list_ is sorted', maintained by Reset together with the sort (SORTED.invalidate)"}
+            if cls[-1] == "ClipperD":
+                allowed["zCallback_"] = "USINGZ: derived from zCallbackD_ by CheckCallback() at the start of every ClipperD::Execute (re-established, not carried)"
+            e2.rule_config_preserved(eng, chk, cfg, execs, BASE, allowed)
+            if e2.rule_sorted_flag(eng, chk, cfg, pubs) < 6:
+                raise AnalysisBroken("SORTED.invalidate: fewer than 6 instances (methods that modify minima_list_ / writes of minima_list_sorted_)")
             adds = [f for f in db.funcs if f.cls in cls and f.name in ("AddPath", "AddPaths", "AddSubject", "AddOpenSubject", "AddClip", "AddReuseableData") and not f.is_pattern]
             e2.rule_clear(eng, chk, cfg, db.one("ClipperBase::Clear"), adds, BASE)
             if eng.unknown_methods:
@@ -172,6 +181,7 @@ def run(chk):
         chk.allow("E2", "ClipperOffset::deltaCallback64_", "public option; Execute(DeltaCallback64, ...) stores it exactly like "
                   "SetDeltaCallback and it persists by design; analysed by configuration splitting (set / unset)")
         e2.rule_dbu(eng, chk, cfg, execs, OFF, worlds)
+        e2.rule_config_preserved(eng, chk, cfg, execs, OFF, {"deltaCallback64_": "Execute(DeltaCallback64, ...) stores the callback by design (allow-listed above)"})
         ei = db.one("ClipperOffset::ExecuteInternal")
         gl = e2.find_loops(ei, lambda l: "groups_" in e2.loop_header_text(l) and any(
             x.get("kind") == "MemberExpr" and x.get("name") == "DoGroupOffset" for x in e2.walk(l)))
